@@ -88,9 +88,12 @@ func getDecoder(packet []byte, state *stateDecode) (*decoder, []byte, error) {
 			return nil, nil, errDecodeEOD
 		}
 
-		dec, _, err := decodeType(packet[:n], state)
+		dec, f, err := decodeType(packet[:n], state)
 		if err != nil {
 			return nil, nil, err
+		}
+		if len(f) > 0 {
+			return nil, nil, fmt.Errorf("extra data in folded type: %#v", f)
 		}
 		packet = packet[n:]
 		return dec, packet, nil
@@ -349,9 +352,8 @@ func decodeType(fold []byte, state *stateDecode) (*decoder, []byte, error) {
 		if err != nil {
 			return nil, nil, fmt.Errorf("unable to unfold type (array): %s", err)
 		}
-		if len(f) > 0 {
-			return nil, nil, fmt.Errorf("extra data in folded type (array): %#v", f)
-		}
+		// an array type can be a map key: what follows it in the fold belongs to the caller
+		fold = fold[:len(fold)-len(f)]
 
 		vtype := reflect.ArrayOf(n, decItem.Type)
 
@@ -394,7 +396,7 @@ func decodeType(fold []byte, state *stateDecode) (*decoder, []byte, error) {
 			state.options.Cache.LoadOrStore(string(fold), &dec)
 		}
 
-		return &dec, nil, nil
+		return &dec, f, nil
 
 	case edtReg:
 		return getRegDecoder(fold[1:], state)
